@@ -1215,13 +1215,15 @@ func c06RunLocalWinsRead(t *testing.T, rec *vRecorder, rng *vRand, idx int) {
 
 // ---------------------------------------------------------------- local-wins resolution losing its CAS (version-vector)
 
-// lwretry: version-vector one-shot pull; every pulled document is in a conflict the LWW resolver decides for the
-// ACTIVE side (its write is the later one) or becomes so; between the update callback of the pull's write and its
-// CAS write a LOCAL PUT of the same document lands on the active side (update callback of the active side's data
+// lwretry: version-vector continuous push-and-pull; every pulled document is in a conflict the LWW resolver decides
+// for the ACTIVE side (its write is the later one) or becomes so; between the update callback of the pull's write and
+// its CAS write a LOCAL PUT of the same document lands on the active side (update callback of the active side's data
 // store, re-entrancy guarded), so the write loses its CAS and the callback is re-run on the updated document against
-// the SAME incoming revision and vector.  The model step is [VEdit VA d body v; VPull d]: re-running the callback must
-// be indistinguishable from pulling after the local edit.  Then pull; push; pull; push, peers_converged, re-run
-// transfers nothing; the whole scenario is also a Coq case of the version-vector model.
+// the SAME incoming revision and vector.  The model step is [VPullRetry d body v; VPull d; VPush d; ...]: re-running the
+// callback must be indistinguishable from pulling after the local edit.  The session runs to quiescence, is stopped and
+// started AGAIN (same replication id, so its checkpoint is reused: a revision dropped by the retry stays dropped), then
+// peers_converged; then fresh one-shot pull; push; pull; push, re-run transfers nothing.  The whole scenario is also a
+// Coq case of the version-vector model.
 func c06RunLocalWinsRetry(t *testing.T, rec *vRecorder, rng *vRand, idx int) {
 	e := c06NewEnv(t, true, 2, "")
 	coll, _ := e.act.GetSingleTestDatabaseCollectionWithUser()
@@ -1307,48 +1309,66 @@ func c06RunLocalWinsRetry(t *testing.T, rec *vRecorder, rng *vRand, idx int) {
 		inj = append(inj, in)
 		mu.Unlock()
 	})
-	st, okPull := e.oneShot(db.ActiveReplicatorTypePull)
+	// a continuous push-and-pull session runs to quiescence with the callback armed
+	okSess := e.sessionStart("both") && e.waitQuiescent()
 	lds.SetUpdateCallback(nil)
-	if !okPull {
-		rec.Err("infrastructure: lwretry pull")
+	if !okSess {
+		rec.Err("infrastructure: lwretry session")
 		return
 	}
+	mu.Lock()
 	sort.Slice(inj, func(a, b int) bool { return inj[a].ver < inj[b].ver })
 	var ops []string
-	desc := "pull with a local PUT of"
+	desc := "start:both with a local PUT of"
+	injectedCV := map[int]uint64{}
 	for _, in := range inj {
 		if !in.ok {
+			mu.Unlock()
 			rec.Err("infrastructure: lwretry interposed write failed")
 			return
 		}
-		ops = append(ops, fmt.Sprintf("VEdit VA %d %d %d", in.doc, in.body, in.ver))
+		// the pull whose write lost its CAS to this PUT (model: VPullRetry = the pull made after the PUT)
+		ops = append(ops, fmt.Sprintf("VPullRetry %d %d %d", in.doc, in.body, in.ver))
 		r.bodies[in.body] = true
+		injectedCV[in.doc] = in.ver
 		desc += fmt.Sprintf(" d%d(b%d)", in.doc, in.body)
 	}
+	nInj := len(inj)
+	mu.Unlock()
 	desc += " between the update callback and the CAS write of the pull's write"
-	ops = append(ops, r.allDocs("Pull")...)
-	if !e.waitVisible(0) {
-		rec.Err("infrastructure: lwretry visibility")
-		return
-	}
+	ops = append(ops, r.syncOps()...)
 	after, js, okS := r.snapshot()
 	if !okS {
 		rec.Err("infrastructure: lwretry unexpected body")
 		return
 	}
-	r.steps = append(r.steps, c06Recorded{ops: ops, counts: fmt.Sprintf("(Some (%d, %d))", st.DocsRead, st.RejectedLocal), after: after,
-		desc: map[string]any{"step": desc, "after": js}})
+	r.steps = append(r.steps, c06Recorded{ops: ops, counts: "None", after: after, desc: map[string]any{"step": desc, "after": js}})
 	r.descs = append(r.descs, desc)
-	injectedCV := map[int]uint64{}
-	for _, in := range inj {
-		injectedCV[in.doc] = in.ver
+	// stop, and run the SAME replication again (its checkpoint is reused): whatever it dropped stays dropped
+	if !(do(c06Step{Kind: "stop"}) && do(c06Step{Kind: "start", Dir: "both"}) && do(c06Step{Kind: "stop"})) {
+		rec.Err("infrastructure: lwretry restart")
+		return
 	}
-	// catch up, then re-run
-	if !(r.do(c06Step{Kind: "pull"}) && r.do(c06Step{Kind: "push"})) {
+	input := map[string]any{"protocol": c06Proto(true), "scenario": fmt.Sprintf("lwretry-%d", idx), "steps": append([]string{}, r.descs...), "interposed_writes": nInj}
+	for i, d := range e.docs {
+		a, b := e.observe(0, d), e.observe(1, d)
+		if a.Exists == b.Exists && a.Deleted == b.Deleted && a.Body == b.Body && a.CV == b.CV {
+			continue
+		}
+		sig := c06StateSig(true, a, b)
+		if v, was := injectedCV[i]; was && a.state() == "live" && b.state() == "live" && a.Src == e.src[0] && a.Ver >= v && b.CV != a.CV {
+			// the active side shows its own (interposed or later) write, the passive side never received it
+			sig = "vv:diverged:local-wins-cas-retry-drops-remote-version"
+		}
+		rec.Fail("peers_converged", sig, input,
+			fmt.Sprintf("doc %d after the continuous push-and-pull replication became quiescent, was stopped, restarted and became quiescent again: active {rev %s cv %s deleted %v body %s} passive {rev %s cv %s deleted %v body %s}; %d local PUT(s) were interposed",
+				i, a.Rev, a.CV, a.Deleted, a.Body, b.Rev, b.CV, b.Deleted, b.Body, nInj))
+	}
+	// fresh one-shot runs (no checkpoint): catch up, then re-run
+	if !(do(c06Step{Kind: "pull"}) && do(c06Step{Kind: "push"})) {
 		rec.Err("infrastructure: lwretry catch-up")
 		return
 	}
-	pushConflicts := r.nConf
 	p2, ok3 := e.oneShot(db.ActiveReplicatorTypePull)
 	if ok3 {
 		r.record(c06Step{Kind: "pull"}, r.allDocs("Pull"), fmt.Sprintf("(Some (%d, %d))", p2.DocsRead, p2.RejectedLocal))
@@ -1364,21 +1384,7 @@ func c06RunLocalWinsRetry(t *testing.T, rec *vRecorder, rng *vRand, idx int) {
 		}
 		return
 	}
-	input := map[string]any{"protocol": c06Proto(true), "scenario": fmt.Sprintf("lwretry-%d", idx), "steps": r.descs, "interposed_writes": len(inj)}
-	for i, d := range e.docs {
-		a, b := e.observe(0, d), e.observe(1, d)
-		if a.Exists == b.Exists && a.Deleted == b.Deleted && a.Body == b.Body && a.CV == b.CV {
-			continue
-		}
-		sig := c06StateSig(true, a, b)
-		if v, was := injectedCV[i]; was && a.state() == "live" && b.state() == "live" && a.Src == e.src[0] && a.Ver >= v && b.CV != a.CV {
-			// the active side shows its own (interposed or later) write, the passive side never received it
-			sig = "vv:diverged:local-wins-cas-retry-drops-remote-version"
-		}
-		rec.Fail("peers_converged", sig, input,
-			fmt.Sprintf("doc %d after the final pull;push: active {rev %s cv %s deleted %v body %s} passive {rev %s cv %s deleted %v body %s}; the catch-up push reported %d conflict(s); %d local PUT(s) were interposed",
-				i, a.Rev, a.CV, a.Deleted, a.Body, b.Rev, b.CV, b.Deleted, b.Body, pushConflicts, len(inj)))
-	}
+	input["steps"] = r.descs
 	if p2.DocsRead != 0 || q2.DocsWritten != 0 {
 		rec.Fail("caught_up_no_transfer", "rerun-transfers-documents", input, fmt.Sprintf("re-running the caught-up replication read %d and wrote %d documents", p2.DocsRead, q2.DocsWritten))
 	}
@@ -1388,8 +1394,8 @@ func c06RunLocalWinsRetry(t *testing.T, rec *vRecorder, rng *vRand, idx int) {
 		steps = append(steps, fmt.Sprintf("VSt %s %s %s", cqList(s.ops), s.counts, s.after))
 		descSteps = append(descSteps, s.desc)
 	}
-	rec.Case("lwretry-vv", "vv-scenario", "CVV\n    "+cqList(steps), map[string]any{"scenario": fmt.Sprintf("lwretry-%d", idx), "protocol": c06Proto(true), "steps": descSteps}, len(inj) > 0)
-	rec.Extra(fmt.Sprintf("lwretry_%d_interposed_writes", idx), len(inj))
+	rec.Case("lwretry-vv", "vv-scenario", "CVV\n    "+cqList(steps), map[string]any{"scenario": fmt.Sprintf("lwretry-%d", idx), "protocol": c06Proto(true), "steps": descSteps}, nInj > 0)
+	rec.Extra(fmt.Sprintf("lwretry_%d_interposed_writes", idx), nInj)
 }
 
 // ---------------------------------------------------------------- resolver stream
